@@ -102,7 +102,13 @@ def gen_case(rng):
         for s in files2:
             for _ in range(5):
                 queries.append([(base + rng.randrange(0, 75)) * 86400 + rng.choice([OPEN, CLOSE, OPEN - 1, 80000]), 'EQ:' + s])
-    return dict(adjust=rng.random() < 0.6, files=files, files2=files2, cut_day=base + rng.randrange(0, 70), queries=queries)
+    # the same instants with a sub-second part (the answer is that of the whole second: rows sit on whole seconds), and expressed
+    # in other time zones
+    subsec = [(rng.choice([1, 400000000, 500000000, 600000000, 999999999, rng.randrange(1, 10 ** 9)]) if rng.random() < 0.2 else 0)
+              for _ in queries]
+    zones = [(rng.choice(['America/New_York', 'Asia/Tokyo', 'Europe/London']) if rng.random() < 0.1 else None) for _ in queries]
+    return dict(adjust=rng.random() < 0.6, files=files, files2=files2, cut_day=base + rng.randrange(0, 70), queries=queries,
+                subsec=subsec, zones=zones)
 
 
 def val(x):
@@ -172,8 +178,15 @@ def execute(case):
         write_csvs(future, d4)
         src_future = CSVDailyBarDataSource(d4, None, adjust_prices=case['adjust'])
         res = []
-        for t, a in case['queries']:
+        import pandas as pd
+        for qi, (t, a) in enumerate(case['queries']):
             T = ts(t)
+            ns = (case.get('subsec') or [0] * (qi + 1))[qi] if qi < len(case.get('subsec') or []) else 0
+            if ns:
+                T = T + pd.Timedelta(ns, unit='ns')
+            zn = (case.get('zones') or [None] * (qi + 1))[qi] if qi < len(case.get('zones') or []) else None
+            if zn:
+                T = T.tz_convert(zn)
             r = dict(bid=[guarded(s.get_bid, T, a) for s in srcs], ask=[guarded(s.get_ask, T, a) for s in srcs],
                      hbid=guarded(dh.get_asset_latest_bid_price, T, a), hask=guarded(dh.get_asset_latest_ask_price, T, a),
                      hmid=guarded(dh.get_asset_latest_mid_price, T, a))
